@@ -126,7 +126,9 @@ def compile_group(ctx, g: Group, extra_defines=(), suffix=''):
 
 def cbmc_cmd(g: Group, binary, engine, trace=False, prop=None):
     cmd = ['cbmc', binary] + (g.checks if g.checks is not None else DEFAULT_CHECKS)
-    cmd += ['--json-ui', '--verbosity', '6', '--drop-unused-functions']
+    # plain-text UI for the verdict run (the JSON UI always builds a counterexample trace for every failed property,
+    # i.e. for the VERIF_REACH guard of every group -- slow and, for wide float code, out of memory); JSON only for traces
+    cmd += (['--json-ui'] if trace else []) + ['--verbosity', '6', '--drop-unused-functions']
     if g.object_bits:
         cmd += ['--object-bits', str(g.object_bits)]
     cmd += g.cbmc_flags + ENGINES[engine]
@@ -137,8 +139,49 @@ def cbmc_cmd(g: Group, binary, engine, trace=False, prop=None):
     return cmd
 
 
+_RES = re.compile(r'^\[([^\]]+)\] (.*): (SUCCESS|FAILURE|UNKNOWN|ERROR)$')
+_HDR = re.compile(r'^(\S+) function (\S+)$')
+
+
+def parse_text(out):
+    """Plain-text cbmc output -> same shape as parse_json."""
+    results, status, msgs = [], None, []
+    cur_file, cur_fn = '', ''
+    for line in out.split('\n'):
+        line = line.rstrip()
+        mo = _RES.match(line)
+        if mo:
+            name, mid, st = mo.groups()
+            f, ln = cur_file, ''
+            m2 = re.match(r'(?:file (\S+) )?(?:function (\S+) )?(?:line (\d+) )?(.*)$', mid)
+            if m2:
+                f = m2.group(1) or cur_file
+                ln = m2.group(3) or ''
+                desc = m2.group(4)
+            else:
+                desc = mid
+            results.append({'property': name, 'description': desc, 'status': st,
+                            'sourceLocation': {'file': f, 'line': ln, 'function': cur_fn}})
+            continue
+        mo = _HDR.match(line)
+        if mo:
+            cur_file, cur_fn = mo.groups()
+            continue
+        if line.startswith('VERIFICATION SUCCESSFUL'):
+            status = 'success'
+        elif line.startswith('VERIFICATION FAILED'):
+            status = 'failure'
+        elif 'ignoring' in line.lower() or 'parse error' in line.lower() or 'error running' in line.lower():
+            msgs.append(line)
+    if status is None or not results:
+        return None
+    return _finish(results, status, msgs)
+
+
 def parse_json(out):
     """Returns (results list, status string, messages) or None if the output is not a complete answer."""
+    if not out.lstrip().startswith('['):
+        return parse_text(out)
     try:
         j = json.loads(out)
     except Exception:
@@ -154,6 +197,10 @@ def parse_json(out):
                 msgs.append(o['messageText'])
     if results is None or status not in ('success', 'failure'):
         return None
+    return _finish(results, status, msgs)
+
+
+def _finish(results, status, msgs):
     bad = [m for m in msgs if 'ignoring' in m.lower() or 'parse error' in m.lower() or 'error running' in m.lower()]
     if bad:
         return None
@@ -184,20 +231,26 @@ def _engine_run(cmd, timeout, race, engine, log):
         if race.done.is_set():
             return
         t0 = time.time()
-        try:
-            p = subprocess.Popen(cmd, stdout=subprocess.PIPE, stderr=subprocess.PIPE, preexec_fn=_limits)
-        except OSError as e:
-            log.append((engine, 'spawn failed %s' % e, 0))
-            return
-        with race.lock:
-            race.procs.append(p)
-        try:
-            out, err = p.communicate(timeout=timeout)
-        except subprocess.TimeoutExpired:
-            _kill(p)
-            out, err = p.communicate()
-            log.append((engine, 'timeout', time.time() - t0))
-            return
+        for attempt in (1, 2):
+            try:
+                p = subprocess.Popen(cmd, stdout=subprocess.PIPE, stderr=subprocess.PIPE, preexec_fn=_limits)
+            except OSError as e:
+                log.append((engine, 'spawn failed %s' % e, 0))
+                return
+            with race.lock:
+                race.procs.append(p)
+            try:
+                out, err = p.communicate(timeout=timeout)
+            except subprocess.TimeoutExpired:
+                _kill(p)
+                out, err = p.communicate()
+                log.append((engine, 'timeout', time.time() - t0))
+                return
+            if p.returncode in (0, 10) or race.done.is_set() or p.returncode < 0:
+                break
+            # a crash of the tool (rc 6 = abort seen under heavy load) is retried once
+            log.append((engine, 'crashed rc=%s, retrying' % p.returncode, time.time() - t0))
+            time.sleep(1.0)
         dt = time.time() - t0
         if race.done.is_set():
             return
